@@ -43,8 +43,20 @@ def default_passes(cfg, k):
     return pa
 
 
+def _leave_loop(it, s):
+    """What leaving a `for action in schedule:` loop with `break` does: the
+    loop's iterator is dropped; if it is a separate object with a finaliser
+    (a generator), CPython closes it at once."""
+    if it is not None and it is not s and hasattr(it, "close"):
+        try:
+            it.close()
+        except Exception:
+            pass
+
+
 def run_stream(cfg, passes=1, observe=None, rng=None, record=False,
-               extra_next=3, finalize_mode="eager", overshoot_steps=0):
+               extra_next=3, finalize_mode="eager", overshoot_steps=0,
+               protocol="next"):
     """Drive one schedule to completion of `passes` adjoint calculations.
 
     observe: None | "flags" (is_exhausted/is_running before and after every
@@ -132,13 +144,21 @@ def run_stream(cfg, passes=1, observe=None, rng=None, record=False,
     pass_start = 0
     idx = 0
     final_emitted = False
+    it = None
     while not done:
         if idx >= cap:
             ex.ck("C02", "bounded_progress", False,
                   f"stream did not conclude within {cap} actions")
             break
         try:
-            a = next(s)
+            if protocol == "for":
+                # the documented idiom: `for a in schedule: ...; if
+                # isinstance(a, EndReverse): break`, one loop per pass
+                if it is None:
+                    it = iter(s)
+                a = next(it)
+            else:
+                a = next(s)
         except StopIteration:
             # premature end of stream
             ex.ck("C02", "stream_complete", False,
@@ -176,6 +196,9 @@ def run_stream(cfg, passes=1, observe=None, rng=None, record=False,
         if isinstance(a, EndReverse):
             res.pass_slices.append((pass_start, idx))
             pass_start = idx
+            if protocol == "for":
+                _leave_loop(it, s)
+                it = None
             if ex.passes >= want:
                 done = True
             if pa is not None and ex.passes >= pa:
@@ -222,6 +245,9 @@ def run_stream(cfg, passes=1, observe=None, rng=None, record=False,
                     break
                 if observe:
                     read_flags(True, True, f"after StopIteration #{k + 1}")
+        # C08 once more after the stream has ended (and after StopIteration)
+        if observe:
+            ex.after(None, s)
         # C11: no under-reporting
         if observe:
             for st in (RAM, DISK):
@@ -239,7 +265,9 @@ class Stepper:
     """One schedule advanced one action at a time (eager finalisation);
     used for interleaved / threaded histories and fresh-process baselines."""
 
-    def __init__(self, cfg, passes=2):
+    def __init__(self, cfg, passes=2, protocol="next"):
+        self.protocol = protocol
+        self._it = None
         self.cfg = cfg
         self.n = cfg["n"]
         self.s, self.stdout = build_captured(cfg)
@@ -258,7 +286,12 @@ class Stepper:
         if self.done:
             return None
         try:
-            a = next(self.s)
+            if self.protocol == "for":
+                if self._it is None:
+                    self._it = iter(self.s)
+                a = next(self._it)
+            else:
+                a = next(self.s)
         except StopIteration:
             self.done = True
             self.stream.append(("StopIteration",))
@@ -279,6 +312,9 @@ class Stepper:
                 self.finalized = True
         if isinstance(a, EndReverse):
             self.passes += 1
+            if self.protocol == "for":
+                _leave_loop(self._it, self.s)
+                self._it = None
             if self.passes >= self.want:
                 self.done = True
         elif isinstance(a, EndForward) and self.want == 0:
